@@ -382,6 +382,11 @@ structure Lib where
   table : Table
   prefixes : List (String × Rat)
   baseNames : List String
+  /-- `_UNIT_LIB.prefixed`: names the prefix scan has added; a prefix is never applied to them -/
+  prefixed : List String := []
+  /-- variant of the tree under test: `false` = the pinned snapshot, where a prefix was also applied
+  to units added by an earlier prefix scan (`dam` = deci-attometer once `am` had been used) -/
+  guardPrefixed : Bool := true
 deriving Repr
 
 def plookup (p : List (String × Rat)) (s : String) : Option Rat :=
@@ -527,17 +532,19 @@ def scanOne (lib : Lib) (item0 : List Char) : Except Err (Option Lib) :=
     let p1 := String.ofList (item.take 1)
     let p2 := String.ofList (item.take 2)
     let rest2 := String.ofList (item.drop 2)
-    match plookup lib.prefixes p1, tlookup lib.table base with
+    let ok1 := !(lib.guardPrefixed && lib.prefixed.contains base)
+    let ok2 := !(lib.guardPrefixed && lib.prefixed.contains rest2)
+    match plookup lib.prefixes p1, (if ok1 then tlookup lib.table base else none) with
     | some pf, some u =>
       match u.prefixed pf name with
       | .error e => .error e
-      | .ok v => .ok (some { lib with table := lib.table ++ [(name, v)] })
+      | .ok v => .ok (some { lib with table := lib.table ++ [(name, v)], prefixed := name :: lib.prefixed })
     | _, _ =>
-      match plookup lib.prefixes p2, tlookup lib.table rest2 with
+      match plookup lib.prefixes p2, (if ok2 then tlookup lib.table rest2 else none) with
       | some pf, some u =>
         match u.prefixed pf name with
         | .error e => .error e
-        | .ok v => .ok (some { lib with table := lib.table ++ [(name, v)] })
+        | .ok v => .ok (some { lib with table := lib.table ++ [(name, v)], prefixed := name :: lib.prefixed })
       | _, _ => .ok none
 
 def scanAll (lib : Lib) : List (List Char) → Except Err (Option Lib) × Lib
